@@ -26,7 +26,7 @@ TRUSTED = [
 ]
 ASSUMPTIONS = []
 RULE = ('user names over octets other than ":" and passwords over arbitrary octets, lengths 0..300 dense around the 57-octet encodebytes threshold (total 50..64) and its multiples, '
-	'every single octet value in each position; mutated/garbage field values for the parser; non-trivial = round trip through Authorization and Proxy-Authorization via Headers; distinct by composed value')
+	'every single octet value in each position; mutated/garbage field values for the parser; one element whose credentials are changed (params, username / password properties) and that is composed after every change; non-trivial = round trip through Authorization and Proxy-Authorization via Headers; distinct by composed value')
 
 
 def cases(rng, tier):
@@ -58,8 +58,55 @@ def cases(rng, tier):
 		yield ('b64', data)
 
 
+	# ONE element whose credentials are changed and that is composed again (a client retrying after a 401): every composed
+	# field stands for the credentials of that moment
+	for _ in range(n // 4):
+		steps = []
+		for _ in range(rng.randrange(2, 5)):
+			route = rng.choice(('params', 'props', 'user-only', 'pass-only', 'same'))
+			u = bytes(rng.choice(b'abcXYZ09_') for _ in range(rng.choice((0, 1, 5, 20))))
+			p = bytes(rng.choice(b'abc:XYZ09 _') for _ in range(rng.choice((0, 1, 5, 40, 80))))
+			steps.append((route, u, p))
+		yield ('seq', tuple(steps))
+
+
 def search(rng, res):
 	return cases(rng, 'thorough')
+
+
+def seq_states(steps):
+	"""the credentials in force after each step"""
+	u = p = b''
+	out = []
+	for i, (route, nu, np_) in enumerate(steps):
+		if i == 0 or route in ('params', 'props'):
+			u, p = nu, np_
+		elif route == 'user-only':
+			u = nu
+		elif route == 'pass-only':
+			p = np_
+		out.append((u, p))
+	return out
+
+
+def seq_impl(steps):
+	e = None
+	out = []
+	for i, (route, nu, np_) in enumerate(steps):
+		if i == 0:
+			e = element_cls('Authorization')('Basic', {'username': nu, 'password': np_})
+		elif route == 'params':
+			e.params['username'] = nu
+			e.params['password'] = np_
+		elif route == 'props':
+			e.username = nu.decode('ascii')
+			e.password = np_.decode('ascii')
+		elif route == 'user-only':
+			e.username = nu.decode('ascii')
+		elif route == 'pass-only':
+			e.password = np_.decode('ascii')
+		out.append(bytes(e))
+	return out
 
 
 def model_lines(case):
@@ -67,6 +114,8 @@ def model_lines(case):
 	if k == 'rt':
 		comp = impl_compose('Authorization', case[1], case[2])
 		return ['basic.compose %s %s' % (hx(case[1]), hx(case[2])), 'basic.parse %s' % hx(comp)]
+	if k == 'seq':
+		return ['basic.compose %s %s' % (hx(u), hx(p)) for u, p in seq_states(case[1])]
 	if k == 'parse':
 		return ['basic.parse %s' % hx(case[1])]
 	if k == 'b64':
@@ -92,6 +141,8 @@ def impl_lines(case):
 	if k == 'rt':
 		comp = impl_compose('Authorization', case[1], case[2])
 		return [hx(comp), parse_line(comp)]
+	if k == 'seq':
+		return [hx(v) for v in seq_impl(case[1])]
 	if k == 'parse':
 		return [parse_line(case[1])]
 	if k == 'b64':
@@ -112,6 +163,15 @@ def parse_line(value):
 
 
 def oracle(case):
+	if case[0] == 'seq':
+		try:
+			got = seq_impl(case[1])
+		except Exception as ex:
+			return {'what': 'changing the credentials of an element and composing it raised %s: %s' % (exc_name(ex), ex), 'steps': describe(case)[1], 'finding': None}
+		for i, ((u, p), v) in enumerate(zip(seq_states(case[1]), got)):
+			if v != b'Basic ' + base64.b64encode(u + b':' + p):
+				return {'what': 'after step %d the element composes %r, its credentials are %r / %r' % (i, v[:80], u, p), 'steps': describe(case)[1], 'finding': None}
+		return None
 	if case[0] != 'rt':
 		return None
 	u, p = case[1], case[2]
@@ -145,6 +205,8 @@ def oracle(case):
 def nontrivial(case, outs):
 	if case[0] == 'rt':
 		return ('rt', case[1], case[2]) if (outs is None or outs[-1].startswith('ok')) else None
+	if case[0] == 'seq':
+		return ('seq', tuple(outs or ()))
 	if case[0] == 'parse':
 		return ('parse', outs[0]) if outs and outs[0].startswith('ok') else None
 	return ('b64', case[1]) if len(case[1]) > 2 else None
@@ -158,10 +220,14 @@ def tally(case, res):
 
 
 def describe(case):
+	if case[0] == 'seq':
+		return ['seq', [[r, u.hex(), p.hex()] for r, u, p in case[1]]]
 	return [case[0]] + [x.hex() for x in case[1:]]
 
 
 def undescribe(d):
+	if d[0] == 'seq':
+		return ('seq', tuple((r, bytes.fromhex(u), bytes.fromhex(p)) for r, u, p in d[1]))
 	return tuple([d[0]] + [bytes.fromhex(x) for x in d[1:]])
 
 
